@@ -43,7 +43,7 @@ SPEC = {
                    "PdModel/Spec/C20.lean", "PdModel/Driver/Bootstrap.lean"],
     "gen": {
         "quick": {"args": ["-n", "30", "-len", "24", "-streams", "4"], "streams": 4},
-        "thorough": {"args": ["-n", "500", "-len", "32", "-streams", "16"], "streams": 16},
+        "thorough": {"args": ["-n", "500", "-len", "32", "-streams", "16", "-maxsec", "500"], "streams": 16},
     },
     "search": {"args": ["-n", "80", "-len", "30", "-streams", "8"], "streams": 8},
     "nontrivial": nontrivial,
@@ -54,7 +54,9 @@ SPEC = {
             "and a foreign-cluster request mixed in; (2) random histories: gated and ungated requests with "
             "well-formed, malformed (12 fixed + free-form) and foreign/zero cluster-id payloads to leader and "
             "follower, forced leader changes (ResignEtcdLeader) while transactions are parked, free bursts of 2-16 "
-            "concurrent requests, IsBootstrapped, a probe of 8 other handlers with the same header, the served "
+            "concurrent requests, IsBootstrapped, a probe of 8 other handlers with the same header, PutClusterConfig with "
+            "own/foreign/zero cluster id in header and body, GetClusterConfig (also on the next leader), Tso streams "
+            "of 1-6 requests with chosen header ids, the served "
             "stores/region; (3) 2-8 gated and 2-8 free concurrent initOrGetClusterID calls on a fresh key. "
             "non-trivial = two parked transactions, or a burst, or a leader change with a parked transaction, or a "
             "cluster-id race; distinct = distinct op sequence",
@@ -71,7 +73,7 @@ SPEC = {
                   "those of that request's well-formed payload and it is the only request answered ok "
                   "(at_most_one_ok_answer over the answers of a history); "
                   "loser_changes_nothing (every other step leaves the records untouched); malformed_payload_rejected + "
-                  "accepted_is_well_formed; foreign_cluster_id_refused; cluster_id_agreement (all racers get the first "
+                  "accepted_is_well_formed; foreign_cluster_id_refused (+ _config: PutClusterConfig header and body, + _tso: every request of a stream); cluster_id_agreement (all racers get the first "
                   "committed value, the key never changes); checkReq_iff_wellFormed ties the modelled check to the "
                   "specification's notion of a well-formed payload. The structure the model relies on (both transactions "
                   "guarded by CreateRevision=0, payload checked before the transaction, validateRequest before "
